@@ -78,31 +78,45 @@ func HarnessC18_Concurrent() {
 		preempt = 3
 	}
 	vfConcurrent(preempt)
-	p := Pool("n%d")
-	done := make(chan *Name, 4)
-	per := 1
-	if vfThorough() {
-		per = 2
+	// natively the race window is tiny: many goroutines and rounds make a lost update likely
+	workers, rounds := 2, 1
+	if vfNative() {
+		workers, rounds = 32, 200
 	}
-	worker := func() {
-		a := p.Acquire()
-		var b *Name
-		if per == 2 {
-			b = p.Acquire()
-			vfAssert(a.ID() != b.ID(), "one goroutine's two names differ")
-		}
-		a.Release()
-		c := p.Acquire()
-		if b != nil {
-			done <- b
-		}
-		done <- c
-	}
-	go worker()
-	go worker()
+	var p *pool
 	var live []*Name
-	for i := 0; i < 2*per; i++ {
-		live = append(live, <-done)
+	for round := 0; round < rounds; round++ {
+		p = Pool("n%d")
+		done := make(chan *Name, 2*workers)
+		start := make(chan struct{})
+		per := 1
+		if vfThorough() {
+			per = 2
+		}
+		worker := func() {
+			<-start
+			a := p.Acquire()
+			var b *Name
+			if per == 2 {
+				b = p.Acquire()
+				vfAssert(a.ID() != b.ID(), "one goroutine's two names differ")
+			}
+			a.Release()
+			c := p.Acquire()
+			if b != nil {
+				done <- b
+			}
+			done <- c
+		}
+		for w := 0; w < workers; w++ {
+			go worker()
+		}
+		close(start)
+		live = nil
+		for i := 0; i < workers*per; i++ {
+			live = append(live, <-done)
+		}
+		c18Check(p, live, "concurrent")
 	}
 	c18Check(p, live, "concurrent")
 	vfReach("end")
